@@ -188,7 +188,9 @@ def class_chars(tree, flags):
     return chars[:7]
 
 
-def families(chars, prefix_hint, pump_hint):
+def families(chars, prefix_hint, pump_hint, deep=False):
+    """deep (the pattern is ambiguous in theory): also every two- and three-character suffix - the continuation that makes the
+    match FAIL after the ambiguous part may need more than one character (`a...a//` for `^([^/]+/?)+$`)"""
     pumps = []
     for n in (1, 2):
         for t in itertools.product(chars[:5], repeat=n):
@@ -196,6 +198,8 @@ def families(chars, prefix_hint, pump_hint):
     if pump_hint and pump_hint not in pumps:
         pumps.insert(0, pump_hint)
     sufs = [""] + chars[:6]
+    if deep:
+        sufs += ["".join(t) for n in (2, 3) for t in itertools.product(chars[:5], repeat=n)]
     pres = [""] + ([prefix_hint] if prefix_hint else []) + chars[:2]
     seen = set()
     for pre in pres:
@@ -297,7 +301,7 @@ def eval_pattern(pattern, flags, tier, how="match"):
         budget = 3 * 10 ** 5 if tier == "quick" else 3 * 10 ** 6
         worst = None
         nfam = 0
-        for pre, pump, suf in families(chars, a.get("prefix"), a.get("pump")):
+        for pre, pump, suf in families(chars, a.get("prefix"), a.get("pump"), deep=bool(a.get("eda"))):
             pts = model_growth(run, pre, pump, suf, budget, (8, 16, 32, 48))
             nfam += 1
             score = (pts[-1][2], local_degree(pts), pts[-1][1])
